@@ -135,6 +135,13 @@ def run_xfer(ctx):
 def run(ctx):
     run_queue(ctx)
     run_xfer(ctx)
+    # third stage: the worker pipes built on both (checks/c06_worker.py)
+    try:
+        from checks import c06_worker
+    except ImportError:
+        c06_worker = None
+    if c06_worker is not None:
+        c06_worker.run_part(ctx)
 
 
 def run_queue(ctx):
@@ -241,3 +248,13 @@ def run_queue(ctx):
                       % (r0["L"], r0["kind"], r0["what"], line, json.dumps(ev), sig),
                       {"cmd": "sched_queue %d %s %s %s" % (r0["L"], r0["kind"], r0["what"], r0.get("sched", "")), "trace": h, "source": source})
     ctx.trusted += ["harness/vsched.c", "harness/vloop.c (mock event loop)", "TLC"]
+
+
+def replay(ctx, rp):
+    if rp.get("replay", {}).get("stage") == "worker":
+        from checks import c06_worker
+        return c06_worker.replay(ctx, rp)
+    from checks import schedreplay
+    return schedreplay.replay_cmd(ctx, rp, "C06", {
+        "sched_queue": dict(src=SRC, trace=("QueuePipes_Trace", "QueuePipes_Trace.cfg"), onepass=True),
+        "sched_xfer": dict(src=XSRC, flags=["-Wl,--wrap=free"], trace=("Xfer_Trace", "Xfer_Trace.cfg"), onepass=True)})
